@@ -8,31 +8,36 @@ import numpy as np
 import vlib
 from vlib import fbits, bitsf
 
-LEVEL_TEXT = ('Lean 4 theorems about the executable blur model at ℂ/ℝ for all image shapes (square or not), extents, angles, pixel '
-              'scales and oversampling factors: kernel and output have the image shape; each transfer function has gain 1 at zero '
-              'frequency; outputs are non-negative; blurs commute with circular shifts (DFT shift theorem); zero extent gives the all-ones kernel and the identity on non-negative images; '
-              'the renormalised (jitter, smear) output keeps the input total; only extent/pixelscale·oversample enters. The same '
-              'model is run at doubles against the real functions on every check.')
-LEVEL_NOTE = ('Partial: "equals the exact circular convolution when that is non-negative (up to the unpaired Nyquist sample on even '
-              'axes)" is proved only conditionally on the convolution being real; Hermitian symmetry / the Nyquist remainder have no '
-              'theorem and are evaluated on the real code by the oracle on every case. Trusted: np.fft.fft2/ifft2 are the plain DFT pair with origin at index 0, np.fft.fftfreq follows its '
-              'documented index map, np.sinc/np.exp/np.abs as named; rounding not modelled.')
-TECHNIQUE = 'Lean 4 proof (Finset sums, roots-of-unity orthogonality, sinc/exp at 0) over a generic executable model + differential correspondence'
-GEN = []
+LEVEL_TEXT = ('Lean 4 theorems about the executable blur model at ℂ/ℝ whose transfer functions are the definitions regenerated from '
+              'detector.pixel / convolvable.jitter / smear on every run (Gen/BlurWiring), for all image shapes (square or not), extents, '
+              'angles, pixel scales and oversampling factors: kernel shape = image shape; the kernels are the separable sinc, '
+              'exp(−2π²σ²ρ²) and the directional sinc in closed form; gain 1 at zero frequency; outputs non-negative; blurs commute with '
+              'circular shifts; zero extent is the identity; jitter/smear keep the total of every image with non-zero total; only '
+              'extent/pixelscale·oversample enters; the kernels are Hermitian on odd axes, hence on odd×odd images the filtered image is '
+              'real and the output equals the exact circular convolution wherever that is non-negative (total kept). The driver runs '
+              'these very definitions at doubles against the real functions.')
+LEVEL_NOTE = ('Partial: on even-sized axes "equals the convolution" is proved only conditionally on the convolution being real and '
+              'non-negative (the unpaired Nyquist row/column breaks Hermitian symmetry; the size of that deviation has no theorem), and '
+              'the spatial-domain form of the convolution (convolution theorem) is not stated; pixelate and smear(angle=None) are covered '
+              'by the oracle only. Trusted: np.fft.fft2/ifft2 are the plain DFT pair with origin at index 0, np.fft.fftfreq follows its '
+              'documented index map, np.sinc/np.exp/np.abs/np.meshgrid as named; rounding not modelled.')
+TECHNIQUE = 'Lean 4 proof (Finset sums, roots-of-unity orthogonality, periodic reindexing, sinc/exp) over an executable model defined from translator-regenerated kernels + differential correspondence'
+GEN = ['BlurWiring']
 OPS = ['C01', 'C05', 'C19']
 RULE = ('cases: non-negative images with rows, cols drawn independently from 1..8 (thorough 1..12; forced 1xn, nx1, even/odd, non-square), '
         'smooth-positive / sparse point-source / constant images; pixel with oversample 1..5, jitter with scale 0..1.5 px, smear with '
-        'distance 0..4 px and angle in [0,360) incl. 0/45/90; extents also given in physical units with a pixel scale; circular shifts '
+        'distance 0..4 px (tail to 8) and angle in [0,360) incl. 0/45/90, also angle=None under a seeded global generator; integer and fractional oversampling; default arguments; pixelate; extents also given in physical units with a pixel scale; the call is made on the caller\'s own array; circular shifts '
         'of either sign; zero extent. distinct = (kind, shape, parameters, roll); non-trivial = non-square or oversample ≠ 1 or '
         'physical units (outside what the test-suite samples)')
 TRUSTED = ['np.fft.fft2 / ifft2 are the un-normalised DFT and its inverse with origin at index 0; np.fft.fftfreq(n) = [0,1,…,⌈n/2⌉-1,-⌊n/2⌋,…,-1]/n; '
            'np.sinc(x) = sin(πx)/(πx); np.meshgrid(x, y) puts x along columns (all modelled in Model/Blur.lean, observed through the correspondence)']
-UNPROVEN = ['equals_convolution_when_hermitian: that c = ifft2(fft2(img)·K) is real (Hermitian symmetry of the transfer functions on odd '
-            'axes), the bound on the deviation from the unpaired Nyquist row/column on even axes, and the spatial-domain form of the '
-            'circular convolution — only the conditional nonneg_convolution_kept_partial is proved; the clause is evaluated by the '
-            'oracle against an independent Fourier-domain convolution on every case']
+UNPROVEN = ['even-sized axes: the deviation of the output from the exact convolution caused by the unpaired Nyquist row/column is not bounded '
+            'by a theorem (only the conditional nonneg_convolution_kept_partial); the oracle allows exactly that contribution',
+            'the spatial-domain form of the circular convolution (convolution theorem) is not stated; the convolution is taken in its Fourier form',
+            'pixelate (= rescale(pixel(img, os), 1/os, order 3, nearest, unitary), shape ceil(n/os), total kept) and smear(angle=None) '
+            '(one uniform(0, 2π) draw of the global generator, reproducible under a seed) are evaluated by the oracle only']
 ASSUMPTIONS = ['images are non-negative with positive total (an all-zero image makes jitter/smear return 0/0)', 'shapes at least 1x1',
-               'pixelscale ≠ 0; smear angle is given (angle=None draws a random direction and is not covered)']
+               'pixelscale ≠ 0']
 
 TOL = 1e-9
 
@@ -64,17 +69,26 @@ def _img(rng, shape):
 def _case(rng, kmax):
     kind = ['pixel', 'jitter', 'smear'][int(rng.integers(0, 3))]
     shape = _shape(rng, kmax)
-    c = {'kind': kind, 'shape': list(shape), 'img': _img(rng, shape), 'oversample': int(rng.integers(1, 6)),
+    os_ = int(rng.integers(1, 6))
+    if rng.integers(0, 5) == 0: os_ = float([1.5, 2.5, 0.5, 3.25][int(rng.integers(0, 4))])        # fractional oversampling
+    c = {'kind': kind, 'shape': list(shape), 'img': _img(rng, shape), 'oversample': os_,
          'pixelscale': 1.0 if rng.integers(0, 2) else float(rng.uniform(2e-6, 2e-5)),
          'roll': [int(rng.integers(-shape[0] - 1, shape[0] + 2)), int(rng.integers(-shape[1] - 1, shape[1] + 2))]}
+    big = rng.integers(0, 6) == 0
     if kind == 'pixel':
         c['pixelscale'] = 1.0; c['extent'] = None
     elif kind == 'jitter':
-        c['extent_px'] = float(rng.uniform(0, 1.5)) / c['oversample']      # 1-sigma in detector pixels
+        c['extent_px'] = float(rng.uniform(0, 3.0 if big else 1.5)) / c['oversample']      # 1-sigma in detector pixels
     else:
-        c['extent_px'] = float(rng.uniform(0, 4)) / c['oversample']
+        c['extent_px'] = float(rng.uniform(0, 8.0 if big else 4.0)) / c['oversample']
         c['angle'] = [0.0, 90.0, 45.0, 180.0][int(rng.integers(0, 4))] if rng.integers(0, 3) == 0 else float(rng.uniform(0, 360))
     if kind != 'pixel': c['extent'] = c['extent_px'] * c['pixelscale']
+    # default arguments (pixelscale=1, oversample=1 omitted from the call) and extra probes
+    if rng.integers(0, 6) == 0:
+        c['oversample'] = 1; c['pixelscale'] = 1.0; c['defaults'] = True
+        if kind != 'pixel': c['extent'] = c['extent_px'] = float(c['extent_px'])
+    if kind == 'pixel' and isinstance(c['oversample'], int) and rng.integers(0, 2): c['pixelate'] = True
+    if kind == 'smear' and rng.integers(0, 3) == 0: c['random_angle_seed'] = int(rng.integers(0, 2 ** 31))
     return c
 
 def generate(rng, tier):
@@ -82,13 +96,18 @@ def generate(rng, tier):
     return [_case(rng, kmax) for _ in range(n)]
 
 def signature(c):
-    return f"{c['kind']} {c['shape']} os={c['oversample']} ps={c['pixelscale']} e={c.get('extent')} a={c.get('angle')} roll={c['roll']} {vlib.jhash(c['img'])}"
+    return (f"{c['kind']} {c['shape']} os={c['oversample']} ps={c['pixelscale']} e={c.get('extent')} a={c.get('angle')} roll={c['roll']} "
+            f"d={int(bool(c.get('defaults')))} p={int(bool(c.get('pixelate')))} r={c.get('random_angle_seed')} {vlib.jhash(c['img'])}")
 
 def nontrivial(c):
     return c['shape'][0] != c['shape'][1] or c['oversample'] != 1 or c['pixelscale'] != 1.0
 
 def tags(c):
     t = [c['kind'], f"os={c['oversample']}"]
+    if c.get('defaults'): t.append('default-arguments')
+    if c.get('pixelate'): t.append('pixelate')
+    if 'random_angle_seed' in c: t.append('smear(angle=None)')
+    if not isinstance(c['oversample'], int): t.append('fractional-oversample')
     m, n = c['shape']
     if m != n: t.append('non-square')
     if m == 1 or n == 1: t.append('single-row/col')
@@ -105,22 +124,26 @@ def shrink(c):
 # ------------------------------------------------------------------------------------------ implementation
 def _image(c): return np.array(c['img'], dtype=float).reshape(c['shape'])
 
-def _run(c, img, extent=None, pixelscale=None, oversample=None):
+def _run(c, img, extent=None, pixelscale=None, oversample=None, angle='case'):
+    """the real call, on the caller's own array (never a copy), with default arguments left out when the case says so"""
     lentil = vlib.import_lentil()
     import lentil.detector, lentil.convolvable
     os_ = c['oversample'] if oversample is None else oversample
     ps = c['pixelscale'] if pixelscale is None else pixelscale
     e = c.get('extent') if extent is None else extent
-    if c['kind'] == 'pixel': return lentil.detector.pixel(img.copy(), oversample=os_)
-    if c['kind'] == 'jitter': return lentil.convolvable.jitter(img.copy(), e, pixelscale=ps, oversample=os_)
-    return lentil.convolvable.smear(img.copy(), e, angle=c['angle'], pixelscale=ps, oversample=os_)
+    kw = {} if (c.get('defaults') and oversample is None and pixelscale is None) else {'oversample': os_}
+    if c['kind'] == 'pixel': return lentil.detector.pixel(img, **kw)
+    if kw: kw['pixelscale'] = ps
+    if c['kind'] == 'jitter': return lentil.convolvable.jitter(img, e, **kw)
+    return lentil.convolvable.smear(img, e, angle=(c['angle'] if angle == 'case' else angle), **kw)
 
 def _pack(a):
     a = np.asarray(a)
     return {'shape': list(a.shape), 'v': [float(x) for x in a.ravel()], 'dtype': str(a.dtype)}
 
 def impl(c):
-    img = _image(c)
+    lentil = vlib.import_lentil()
+    img = _image(c); img0 = img.copy()
     def guarded(f):
         try: return _pack(f())
         except Exception as e: return {'exc': type(e).__name__, 'msg': str(e)[:200]}
@@ -132,11 +155,30 @@ def impl(c):
         res['zero'] = guarded(lambda: _run(c, img, extent=0.0))
         # the same extent expressed in samples: extent/pixelscale*oversample with pixelscale = oversample = 1
         res['units'] = guarded(lambda: _run(c, img, extent=c['extent'] / c['pixelscale'] * c['oversample'], pixelscale=1, oversample=1))
+    if c.get('pixelate'):
+        import lentil.detector
+        res['pixelate'] = guarded(lambda: lentil.detector.pixelate(img, c['oversample']))
+        res['pixelate_ref'] = guarded(lambda: lentil.rescale(lentil.detector.pixel(img, c['oversample']), 1 / c['oversample'],
+                                                             order=3, mode='nearest', unitary=True))
+    if 'random_angle_seed' in c:
+        # smear(angle=None) draws its direction from NumPy's global generator: run it under a seeded snapshot, twice
+        seed = c['random_angle_seed']; saved = np.random.get_state()
+        try:
+            np.random.seed(seed); res['rand1'] = guarded(lambda: _run(c, img, angle=None))
+            after = np.random.get_state()
+            np.random.seed(seed); res['rand2'] = guarded(lambda: _run(c, img, angle=None))
+            rs = np.random.RandomState(seed); a = rs.uniform(0, 2 * np.pi)
+            res['rand_ref'] = guarded(lambda: _run(c, img, angle=float(np.degrees(a))))
+            st = rs.get_state()
+            res['rand_draws'] = {'one_uniform': bool(after[2] == st[2] and np.array_equal(after[1], st[1]))}
+        finally:
+            np.random.set_state(saved)
+    res['input'] = {'untouched': bool(np.array_equal(img, img0))}
     return res
 
 def requests(c, io):
     r = {'op': 'c19.blur', 'kind': c['kind'], 'shape': c['shape'], 'v': [fbits(x) for x in c['img']],
-         'pixelscale': fbits(c['pixelscale']), 'oversample': fbits(float(c['oversample']))}
+         'pixelscale': fbits(float(c['pixelscale'])), 'oversample': fbits(float(c['oversample']))}
     if c['kind'] != 'pixel': r['extent'] = fbits(c['extent'])
     if c['kind'] == 'smear': r['angle'] = fbits(c['angle'])
     return [r]
@@ -184,11 +226,15 @@ def ref_convolution(c):
 
 def oracle(c, io):
     img = _image(c); S = float(img.sum()); tol = TOL * (1 + S)
-    for k, d in io.items():
+    if not io['input']['untouched']: return "the caller's image was modified"
+    arrs = {k: d for k, d in io.items() if isinstance(d, dict) and ('v' in d or 'exc' in d)}
+    if c['kind'] == 'pixel' and 'exc' in arrs.get('zero', {}): arrs.pop('zero')      # a library that refuses oversample=0 is not in violation
+    for k, d in arrs.items():
         if 'exc' in d: return f"{c['kind']}[{k}] raised {d['exc']}: {d.get('msg')} on a {c['shape']} image"
     out = _arr(io['out'])
-    for k, d in io.items():
+    for k, d in arrs.items():
         a = _arr(d)
+        if k.startswith('pixelate'): continue
         if a.shape != img.shape: return f"{k}: output shape {a.shape} != image shape {img.shape}"
         if not np.all(np.isfinite(a)): return f'{k}: non-finite output'
         if a.min() < 0: return f'{k}: negative output {a.min()}'
@@ -196,22 +242,47 @@ def oracle(c, io):
     if abs(K[0, 0] - 1) > 1e-12: return f'transfer function gain at zero frequency is {K[0, 0]}'
     d = float(np.max(np.abs(_arr(io['rolled']) - np.roll(out, tuple(c['roll']), axis=(0, 1)))))
     if not d <= tol: return f"does not commute with circular shift {c['roll']}: differs by {d:.3e}"
-    d = float(np.max(np.abs(_arr(io['zero']) - img)))
-    if not d <= tol: return f'zero extent is not the identity: differs by {d:.3e}'
+    if 'zero' in arrs:
+        d = float(np.max(np.abs(_arr(io['zero']) - img)))
+        if not d <= tol: return f'zero extent is not the identity: differs by {d:.3e}'
     if c['kind'] != 'pixel':
         if not abs(out.sum() - S) <= tol: return f'total not preserved: {S} -> {out.sum()}'
         d = float(np.max(np.abs(_arr(io['units']) - out)))
         if not d <= tol: return (f"extent {c['extent']} with pixelscale {c['pixelscale']}, oversample {c['oversample']} differs from "
                                  f"the same extent in samples by {d:.3e}")
     conv = ref_convolution(c)
+    m, n = img.shape
+    # contribution of the unpaired Nyquist row/column on even axes (the statement allows a deviation of this size)
+    X = np.fft.fft2(img) * K
+    nyq = 0.0
+    if m % 2 == 0: nyq += float(np.sum(np.abs(X[m // 2, :])))
+    if n % 2 == 0: nyq += float(np.sum(np.abs(X[:, n // 2])))
+    nyq = 2 * nyq / (m * n)
     # where the exact convolution is real and non-negative the output equals it (and so keeps the total)
     if float(np.max(np.abs(conv.imag))) <= 1e-12 * (1 + S) and conv.real.min() >= 0:
         d = float(np.max(np.abs(out - conv.real)))
         if not d <= tol: return f'output differs from the exact non-negative circular convolution by {d:.3e}'
         if not abs(out.sum() - S) <= tol: return f'total not preserved by a non-negative convolution: {S} -> {out.sum()}'
     else:
+        if m % 2 == 1 and n % 2 == 1 and float(np.max(np.abs(conv.imag))) > 1e-12 * (1 + S):
+            return 'odd x odd image but the reference convolution is not real (transfer function not Hermitian)'
         ref = np.abs(conv)
         if c['kind'] != 'pixel': ref = ref * S / ref.sum()
         d = float(np.max(np.abs(out - ref)))
-        if not d <= tol: return f'output differs from |convolution| with the analytic transfer function by {d:.3e}'
+        allow = tol + nyq * (1 + (S / max(np.abs(conv).sum(), 1e-300) if c['kind'] != 'pixel' else 0))
+        if not d <= allow: return f'output differs from |convolution| with the analytic transfer function by {d:.3e} (allowed {allow:.1e})'
+    if 'pixelate' in arrs:
+        got, ref = _arr(io['pixelate']), _arr(io['pixelate_ref'])
+        want = (int(np.ceil(m / c['oversample'])), int(np.ceil(n / c['oversample'])))
+        if got.shape != want: return f"pixelate: shape {got.shape}, expected ceil(shape/oversample) = {want}"
+        if got.shape != ref.shape or not float(np.max(np.abs(got - ref))) <= tol:
+            return 'pixelate differs from rescale(pixel(img, oversample), 1/oversample, order=3, mode="nearest", unitary=True)'
+        if img.min() > 0 and not abs(got.sum() - out.sum()) <= 1e-9 * (1 + abs(out.sum())) and np.all(got > 0):
+            return f'pixelate does not keep the total of the pixel-blurred image: {out.sum()} -> {got.sum()}'
+    if 'rand1' in arrs:
+        r1, r2, rr = _arr(io['rand1']), _arr(io['rand2']), _arr(io['rand_ref'])
+        if not np.array_equal(r1, r2): return 'smear(angle=None) is not reproducible under the same global seed'
+        if not float(np.max(np.abs(r1 - rr))) <= tol: return 'smear(angle=None) is not the smear along uniform(0, 2π) radians drawn from the global generator'
+        if not abs(r1.sum() - S) <= tol: return f'smear(angle=None): total not preserved: {S} -> {r1.sum()}'
+        if not io['rand_draws']['one_uniform']: return 'smear(angle=None) does not consume exactly one uniform draw of the global generator'
     return None
